@@ -87,3 +87,11 @@ Proof.
   - intros n Hn. vm_compute in Hn. vm_compute. tauto.
   - intros e He. vm_compute in He. repeat (destruct He as [<-|He]; [vm_compute; tauto|]). contradiction.
 Qed.
+
+(* only derivation and connection edges derive: an excluded-connection or incompatibility edge added to the graph leaves
+   the closure of every assignment unchanged (the defect F16, repaired by a8ef938, was an implementation that followed
+   EXCLUDES edges) *)
+Theorem C02_non_deriving_edges_do_not_derive : forall g e s n, non_deriving e ->
+  (Reach (add_edge g e) s n <-> Reach g s n).
+Proof. exact reach_ignores_non_deriving_edges. Qed.
+Print Assumptions C02_non_deriving_edges_do_not_derive.
